@@ -37,6 +37,7 @@ type runOut struct {
 	err     string
 	mu      sync.Mutex
 	edits   []editEv
+	reopens []int // op count right after each Close that precedes a reopen
 }
 
 var (
@@ -141,6 +142,7 @@ func runWorkload(w *wl.Workload) (out *runOut) {
 				out.err = "Close: " + err.Error()
 				return
 			}
+			out.reopens = append(out.reopens, stor.OpCount())
 			db, err = leveldb.Open(stor, o)
 			if err != nil {
 				out.err = "reopen: " + err.Error()
@@ -309,6 +311,11 @@ func kEvents(out *runOut) []kev {
 		case vstor.OpRemove:
 			add(i, "PDropFrozen")
 		}
+	}
+	for _, ri := range out.reopens {
+		// a clean close keeps everything written; reopening replays it into memory, the flushes that follow
+		// are ordinary events
+		add(ri-1, "PReopen")
 	}
 	for _, e := range out.edits {
 		if e.idx < out.openIdx {
@@ -716,14 +723,6 @@ func main() {
 	for wi := 0; wi < nk; wi++ {
 		r := root.Fork()
 		w := wl.GenWorkload(r, r.Range(30, 90))
-		w.Cfg.MaxManifest = 0
-		var steps []wl.Step
-		for _, st := range w.Steps {
-			if st.Kind != "reopen" {
-				steps = append(steps, st)
-			}
-		}
-		w.Steps = steps
 		out := runWorkload(w)
 		if out.err != "" {
 			continue
